@@ -882,7 +882,15 @@ func (c *compiler) compile(tok *token) []instruction {
 		const methodType, methodName, methodFunc = 0, 1, 2
 		c.FuncName = c.pkgPrefix(tok.Tokens[methodType].Text) + "." + tok.Tokens[methodName].Text
 		res = append(res, c.compile(tok.Tokens[methodFunc])...)
-		res = append(res, instruction{Code: codeGlobalGet, A: reg(c.Globals.Index(c.expPrefix(tok.Tokens[methodType].Text)))})
+		recv := c.Globals.Index(c.expPrefix(tok.Tokens[methodType].Text))
+		if typ := c.Globals.Read(recv); typ.t == typeType {
+			// the receiver is a type defined from a struct type (type B T): it shares
+			// the struct's method table, which is where the method has to go
+			if st := Type(typ.Int()); st.base() == TypeStruct && st.value() > 0 {
+				recv = int(st.value())
+			}
+		}
+		res = append(res, instruction{Code: codeGlobalGet, A: reg(recv)})
 		res = append(res, instruction{Code: codeSetMethod,
 			A: reg(c.Globals.Index(tok.Tokens[methodName].Text)),
 		})
